@@ -13,7 +13,8 @@ EXPLANATION = (
     ' Goal collection / status (only goal items are delivered with their score), the positional callbacks and the call-local rule cache are part of this check as well.'
     ' Third round: the Tree factories store what they are given and retrieve_tree takes label, symbol and head flag from the cached rule result, so the tree returned carries the head flags the score was computed with.'
     ' Fourth round: the declared layout of the score buffers (rule of C02); the options are read once per call.'
-    ' Seventh round: chunking and in-order gather (the score reported for sentence i is computed from its own matrices).')
+    ' Seventh round: chunking and in-order gather (the score reported for sentence i is computed from its own matrices).'
+    ' Eighth round: depccg.parsing.run is one pass -- it does not call itself again with other options for the sentences that failed (R9.1).')
 TRUSTED = ['clang-14 front end', 'CPython ast', 'sa/pyx.py normaliser', 'rule table DESIGN.md C09']
 
 
